@@ -275,7 +275,7 @@ Print Assumptions C02_source_tables_are_the_scanners.
 
 (* ================================================================== round 3: typedef blocks in any layout, typedefs and
    pairs anywhere *)
-From PV Require Import Yanny.StructFacts Yanny.TypedefLayout Yanny.Skeleton Yanny.StructLayout.
+From PV Require Import Yanny.StructFacts Yanny.EnumFacts Yanny.TypedefLayout Yanny.Skeleton Yanny.StructLayout Yanny.EnumLayout.
 
 (* LAYOUT INSIDE A STRUCT TYPEDEF BLOCK: any blank run (blanks, tabs, newlines) before the first declaration, between type
    word and name and after every semicolon, with at least one newline between two declarations; comment / filler words
@@ -298,33 +298,50 @@ Theorem C02_canonical_typedef_reads : forall es tw,
 Proof. exact canonical_td_reads. Qed.
 Print Assumptions C02_canonical_typedef_reads.
 
+(* LAYOUT INSIDE AN ENUM TYPEDEF BLOCK: any blank run before the first label, after every comma and after the last label
+   (labels on one line or on several); the block is read as the enum (etd_reads: isolated by the pre-passes, the enum
+   scanner returns the type name and exactly the labels) *)
+Theorem C02_enum_block_layout : forall e lead gaps trail,
+  enum_ok e = true -> forallb wsch lead = true -> forallb (forallb wsch) gaps = true -> forallb wsch trail = true ->
+  no_td (ebody lead (e_labels e) gaps trail) = true ->
+  etd_reads e (ebody lead (e_labels e) gaps trail) (upper (e_tname e)).
+Proof. exact ebody_etd_reads. Qed.
+Print Assumptions C02_enum_block_layout.
+
+Theorem C02_canonical_enum_reads : forall e, enum_ok e = true -> etd_reads e (fst (enum_td e)) (snd (enum_td e)).
+Proof. exact canonical_etd_reads. Qed.
+Print Assumptions C02_canonical_enum_reads.
+
 (* composition principle with free typedef blocks: ANY text of well-formed items whose struct typedefs are read as the
-   document's tables, whose enum typedefs are the document's and whose lines drive the line loop to the document's pairs
-   and rows is read as the document; only the typedef TEXTS reported by the read are those of the file *)
-Theorem C02_typedef_layout_composition : forall d tws bns its st',
+   document's tables, whose enum typedefs are read as the document's enums and whose lines drive the line loop to the
+   document's pairs and rows is read as the document; only the typedef TEXTS reported by the read are those of the file *)
+Theorem C02_typedef_layout_composition : forall d tws bns ebns its st',
   doc_ok d = true -> map fst tws = d_tables d -> tws_ok (d_enums d) tws ->
   Forall2 (fun tw bn => td_reads (d_enums d) (fst tw) (fst bn) (snd bn)) tws bns ->
+  Forall2 (fun e bn => etd_reads e (fst bn) (snd bn)) (d_enums d) ebns ->
   Forall item_good its -> its <> [] ->
   map item_td_text (filter (item_is_td KW_STRUCT) its) = map btext bns ->
-  map item_td_text (filter (item_is_td KW_ENUM) its) = map render_enum (d_enums d) ->
+  map item_td_text (filter (item_is_td KW_ENUM) its) = map ebtext ebns ->
   process_lines (sy_of (d_enums d) tws) (st_init (sy_of (d_enums d) tws)) (map item_line its ++ [[]]) = Some st' ->
   loop_result d st' ->
-  exists p, sem d = Some p /\ parse (items_text its) = Some (with_structs p (map btext bns)) /\
-            parse_binary (items_text its) = Some (with_structs p (map btext bns)).
+  exists p, sem d = Some p /\ parse (items_text its) = Some (with_texts p (map ebtext ebns) (map btext bns)) /\
+            parse_binary (items_text its) = Some (with_texts p (map ebtext ebns) (map btext bns)).
 Proof. exact parse_items_td. Qed.
 Print Assumptions C02_typedef_layout_composition.
 
 (* FILE LEVEL, round 3 (supersedes C02_layout_independence_partial): the file is ANY sequence l of its core items --
-   keyword pairs, data rows, struct typedefs in any layout td_reads accepts, enum typedefs -- that keeps the pairs in
-   order, every table's rows in order (trs_ok), the struct typedefs in table order and the enum typedefs in order:
-   typedefs and pairs may stand anywhere, also after data rows.  On top of it every decoration of idec: any data row in any
-   admissible token layout, indentation, trailing blanks and a trailing comment on every pair / row line, comment and
-   blank lines inserted anywhere.  Then parse and parse_binary of the text = sem d, reporting the typedef texts of the file *)
+   keyword pairs, data rows, struct typedefs in any layout td_reads accepts, enum typedefs in any layout etd_reads accepts
+   -- that keeps the pairs in order, every table's rows in order (trs_ok), the struct typedefs in table order and the enum
+   typedefs in order: typedefs and pairs may stand anywhere, also after data rows.  On top of it every decoration of idec:
+   any data row in any admissible token layout, indentation, trailing blanks and a trailing comment on every pair / row
+   line, comment and blank lines inserted anywhere.  Then parse and parse_binary of the text = sem d, reporting the
+   typedef texts of the file *)
 Theorem C02_layout_independence_partial2 : forall d tws l Ds,
   doc_ok d = true -> map fst tws = d_tables d -> tws_ok (d_enums d) tws ->
   skel_ok d tws l -> idec (sy_of (d_enums d) tws) Ds (map sk_item l) -> Ds <> [] ->
-  exists p, sem d = Some p /\ parse (items_text Ds) = Some (with_structs p (map btext (sk_structs l))) /\
-            parse_binary (items_text Ds) = Some (with_structs p (map btext (sk_structs l))).
+  exists p, sem d = Some p /\
+            parse (items_text Ds) = Some (with_texts p (map ebtext (sk_enums l)) (map btext (sk_structs l))) /\
+            parse_binary (items_text Ds) = Some (with_texts p (map ebtext (sk_enums l)) (map btext (sk_structs l))).
 Proof. exact layout_file_skeleton. Qed.
 Print Assumptions C02_layout_independence_partial2.
 
@@ -338,7 +355,21 @@ Example C02_example2_layout : idec (sy_of (d_enums ex_doc) ex_tws) ex2_items (ma
 Proof. exact example2_layout. Qed.
 Example C02_example2_reads_as_the_document :
   match sem ex_doc with
-  | Some p => parse (items_text ex2_items) = Some (with_structs p [td_text KW_STRUCT ex2_body ex2_name])
+  | Some p => parse (items_text ex2_items) = Some (with_texts p [] [td_text KW_STRUCT ex2_body ex2_name])
   | None => False
   end.
 Proof. exact example2_reads_as_the_document. Qed.
+
+(* a third file: the enum typedef on one line (blanks after the brace and the comma) AFTER the struct that uses it and after
+   the data row; the struct with n<2> and a lower-case name *)
+Example C02_example3_enum : etd_reads ex3_enum ex3_ebody (bs "STATUS"%string).
+Proof. exact example3_enum. Qed.
+Example C02_example3_skeleton : doc_ok ex3_doc = true /\ skel_ok ex3_doc ex3_tws ex3_skel.
+Proof. exact (conj (proj1 example3_in_domain) example3_skeleton). Qed.
+Example C02_example3_reads_as_the_document :
+  match sem ex3_doc with
+  | Some p => parse (items_text (map sk_item ex3_skel))
+              = Some (with_texts p [td_text KW_ENUM ex3_ebody (bs "STATUS"%string)] [td_text KW_STRUCT ex3_sbody (bs "obj"%string)])
+  | None => False
+  end.
+Proof. exact example3_reads_as_the_document. Qed.
